@@ -811,178 +811,143 @@ fn should_do_dollar_command_extension(line: &str) -> bool {
     !libs::re::re_contains(line, r"='.*\$\([^\)]+\).*'$")
 }
 
-fn do_command_substitution_for_dollar(sh: &mut Shell, tokens: &mut types::Tokens) {
-    let mut idx: usize = 0;
-    let mut buff: HashMap<usize, String> = HashMap::new();
-
-    for (sep, token) in tokens.iter() {
-        if sep == "'" || sep == "\\" || !should_do_dollar_command_extension(token) {
-            idx += 1;
-            continue;
-        }
-
-        let mut line = token.to_string();
-        loop {
-            if !should_do_dollar_command_extension(&line) {
-                break;
+/// Run `cmd` for a command substitution: its stdout without the trailing
+/// newlines is returned, its stderr is passed on to the shell's stderr.
+/// A command that cannot be parsed gives a diagnostic and an empty result.
+fn run_command_for_substitution(sh: &mut Shell, cmd: &str) -> String {
+    let cr = match CommandLine::from_line(cmd, sh) {
+        Ok(c) => {
+            log!("run subcmd: {:?}", cmd);
+            let (term_given, cr) = core::run_pipeline(sh, &c, true, true, false);
+            if term_given {
+                unsafe {
+                    let gid = libc::getpgid(0);
+                    give_terminal_to(gid);
+                }
             }
-            #[cfg(cicada_verif)]
-            crate::verif::tick("cmd_subst_dollar");
-
-            let ptn_cmd = r"\$\((.+)\)";
-            let cmd = match libs::re::find_first_group(ptn_cmd, &line) {
-                Some(x) => x,
-                None => {
-                    println_stderr!("cicada: calculator: no first group");
-                    return;
-                }
-            };
-
-            let cmd_result = match CommandLine::from_line(&cmd, sh) {
-                Ok(c) => {
-                    log!("run subcmd dollar: {:?}", &cmd);
-                    let (term_given, cr) = core::run_pipeline(sh, &c, true, true, false);
-                    if term_given {
-                        unsafe {
-                            let gid = libc::getpgid(0);
-                            give_terminal_to(gid);
-                        }
-                    }
-
-                    cr
-                }
-                Err(e) => {
-                    println_stderr!("cicada: {}", e);
-                    continue;
-                }
-            };
-
-            let output_txt = cmd_result.stdout.trim();
-
-            let ptn = r"(?P<head>[^\$]*)\$\(.+\)(?P<tail>.*)";
-            let re;
-            if let Ok(x) = Regex::new(ptn) {
-                re = x;
-            } else {
-                return;
-            }
-
-            let to = format!("${{head}}{}${{tail}}", output_txt);
-            let line_ = line.clone();
-            let result = re.replace(&line_, to.as_str());
-            line = result.to_string();
+            cr
         }
+        Err(e) => {
+            println_stderr!("cicada: {}", e);
+            return String::new();
+        }
+    };
 
-        buff.insert(idx, line.clone());
-        idx += 1;
+    if !cr.stderr.is_empty() {
+        if cr.stderr.ends_with('\n') {
+            print_stderr_raw(&cr.stderr);
+        } else {
+            println_stderr!("{}", cr.stderr);
+        }
     }
+    cr.stdout.trim_end_matches('\n').to_string()
+}
 
-    for (i, text) in buff.iter() {
-        tokens[*i].1 = text.to_string();
+fn print_stderr_raw(text: &str) {
+    match write!(&mut ::std::io::stderr(), "{}", text) {
+        Ok(_) => {}
+        Err(e) => println!("write to stderr failed: {:?}", e),
     }
 }
 
-fn do_command_substitution_for_dot(sh: &mut Shell, tokens: &mut types::Tokens) {
-    let mut idx: usize = 0;
-    let mut buff: HashMap<usize, String> = HashMap::new();
-    for (sep, token) in tokens.iter() {
-        let new_token: String;
-        if sep == "`" {
-            log!("run subcmd dot1: {:?}", token);
-            let cr = match CommandLine::from_line(token, sh) {
-                Ok(c) => {
-                    let (term_given, _cr) = core::run_pipeline(sh, &c, true, true, false);
-                    if term_given {
-                        unsafe {
-                            let gid = libc::getpgid(0);
-                            give_terminal_to(gid);
-                        }
-                    }
-
-                    _cr
-                }
-                Err(e) => {
-                    println_stderr!("cicada: {}", e);
-                    continue;
-                }
-            };
-
-            new_token = cr.stdout.trim().to_string();
-        } else if sep == "\"" || sep.is_empty() {
-            let re;
-            if let Ok(x) = Regex::new(r"^([^`]*)`([^`]+)`(.*)$") {
-                re = x;
-            } else {
-                println_stderr!("cicada: re new error");
-                return;
-            }
-            if !re.is_match(token) {
-                idx += 1;
-                continue;
-            }
-            let mut _token = token.clone();
-            let mut _item = String::new();
-            let mut _head = String::new();
-            let mut _output = String::new();
-            let mut _tail = String::new();
-            loop {
-                #[cfg(cicada_verif)]
-                crate::verif::tick("cmd_subst_backquote");
-                if !re.is_match(&_token) {
-                    if !_token.is_empty() {
-                        _item = format!("{}{}", _item, _token);
-                    }
-                    break;
-                }
-                for cap in re.captures_iter(&_token) {
-                    _head = cap[1].to_string();
-                    _tail = cap[3].to_string();
-                    log!("run subcmd dot2: {:?}", &cap[2]);
-
-                    let cr = match CommandLine::from_line(&cap[2], sh) {
-                        Ok(c) => {
-                            let (term_given, _cr) = core::run_pipeline(sh, &c, true, true, false);
-                            if term_given {
-                                unsafe {
-                                    let gid = libc::getpgid(0);
-                                    give_terminal_to(gid);
-                                }
-                            }
-
-                            _cr
-                        }
-                        Err(e) => {
-                            println_stderr!("cicada: {}", e);
-                            continue;
-                        }
-                    };
-
-                    _output = cr.stdout.trim().to_string();
-                }
-                _item = format!("{}{}{}", _item, _head, _output);
-                if _tail.is_empty() {
-                    break;
-                }
-                _token = _tail.clone();
-            }
-            new_token = _item;
-        } else {
-            idx += 1;
+/// Find the end of the `$(...)` that starts at `open` (the index of `(`):
+/// returns the index of the matching `)`.
+fn find_matching_paren(text: &str, open: usize) -> Option<usize> {
+    let mut depth = 0;
+    let mut quote: Option<char> = None;
+    let mut escaped = false;
+    for (i, c) in text.char_indices().skip_while(|(i, _)| *i < open) {
+        if escaped {
+            escaped = false;
             continue;
         }
-
-        buff.insert(idx, new_token.clone());
-        idx += 1;
+        if let Some(q) = quote {
+            if c == q {
+                quote = None;
+            }
+            continue;
+        }
+        match c {
+            '\\' => escaped = true,
+            '\'' | '"' | '`' => quote = Some(c),
+            '(' => depth += 1,
+            ')' => {
+                depth -= 1;
+                if depth == 0 {
+                    return Some(i);
+                }
+            }
+            _ => {}
+        }
     }
+    None
+}
 
-    for (i, text) in buff.iter() {
-        tokens[*i].1 = text.to_string();
+/// Replace every `$(cmd)` and `` `cmd` `` of `text` by the output of cmd, in
+/// one pass from left to right: the output is spliced in literally and is
+/// not scanned again.
+fn substitute_commands(sh: &mut Shell, text: &str, with_dollar: bool,
+                       with_dot: bool) -> String {
+    let mut result = String::new();
+    let mut rest = text;
+    loop {
+        #[cfg(cicada_verif)]
+        crate::verif::tick("cmd_subst");
+        let pos_dollar = if with_dollar { rest.find("$(") } else { None };
+        let pos_dot = if with_dot { rest.find('`') } else { None };
+        let use_dollar = match (pos_dollar, pos_dot) {
+            (Some(a), Some(b)) => a < b,
+            (Some(_), None) => true,
+            (None, Some(_)) => false,
+            (None, None) => break,
+        };
+
+        let (start, cmd_start, end) = if use_dollar {
+            let start = pos_dollar.unwrap_or(0);
+            match find_matching_paren(rest, start + 1) {
+                Some(end) => (start, start + 2, end),
+                None => break,
+            }
+        } else {
+            let start = pos_dot.unwrap_or(0);
+            match rest[start + 1..].find('`') {
+                Some(x) => (start, start + 1, start + 1 + x),
+                None => break,
+            }
+        };
+
+        let cmd = &rest[cmd_start..end];
+        result.push_str(&rest[..start]);
+        if cmd.trim().is_empty() {
+            result.push_str(&rest[start..end + 1]);
+        } else {
+            let output = run_command_for_substitution(sh, cmd);
+            result.push_str(&output);
+        }
+        rest = &rest[end + 1..];
     }
+    result.push_str(rest);
+    result
 }
 
 fn do_command_substitution(sh: &mut Shell, tokens: &mut types::Tokens) {
-    do_command_substitution_for_dot(sh, tokens);
-    do_command_substitution_for_dollar(sh, tokens);
+    for idx in 0..tokens.len() {
+        let (sep, token) = tokens[idx].clone();
+        if sep == "`" {
+            tokens[idx].1 = run_command_for_substitution(sh, &token);
+            continue;
+        }
+        if sep == "'" {
+            continue;
+        }
+
+        let with_dollar = sep != "\\" && should_do_dollar_command_extension(&token);
+        let with_dot = (sep == "\"" || sep.is_empty()) && token.matches('`').count() >= 2;
+        if !with_dollar && !with_dot {
+            continue;
+        }
+        tokens[idx].1 = substitute_commands(sh, &token, with_dollar, with_dot);
+    }
 }
 
 pub fn do_expansion(sh: &mut Shell, tokens: &mut types::Tokens) {
